@@ -24,7 +24,7 @@ TCrash == /\ l <= Len(Trace) /\ Ev.op = "fcrash"
                       (IF e.load1 # -1 /\ ~complete1 THEN {V("after a cut-short write the name loads to partial contents")} ELSE {})
                       \cup (IF e.child = "ok" /\ ~complete1 THEN {V("a Store that reported success did not leave the complete bytes")} ELSE {})
                       \* C18 (errors surface): the write failed with an I/O error inside the child, so its Store must not have reported success
-                      \cup (IF e.mode \in {"ioerr", "enospc"} /\ e.limit < e.len /\ e.child = "ok"
+                      \cup (IF e.mode = "ioerr" /\ e.limit < e.len /\ e.child = "ok"
                             THEN {[p |-> "C18", l |-> l, tr |-> e.id, why |-> "the file backend does not return a failed write to the caller of Store", h |-> 0]} ELSE {})
                       \cup (IF e.restore # "ok" THEN {V("storing the node again after the failure does not succeed")}
                             ELSE IF ~(e.load2 = e.len /\ e.same2) THEN {V("storing the node again does not repair it (skipped because a file exists)")} ELSE {})
